@@ -1,0 +1,29 @@
+//go:build verif
+
+package j5client
+
+// Contracts for contract-based verification (/verif, property C16).
+
+// ---- the client request is a partition of the request message (C16) ---------------------------------------
+// Every property of the request message lands in exactly one place: the path parameters (its JSON name is
+// a ':'-segment of the method's path; such a property is required) or the rest, which is the body when
+// the method has one and the query parameters otherwise.
+//@ func (*Method).fillRequest
+//@   requires mm != nil && requestObject != nil
+//@   requires forall i int {requestObject.Properties[i]} :: 0 <= i && i < len(requestObject.Properties) ==> requestObject.Properties[i] != nil
+//@   loop 1 invariant len(pathProperties) + len(bodyProperties) == $iter
+//@   loop 1 invariant fresh(pathProperties) && fresh(bodyProperties) && sbase(pathProperties) != sbase(bodyProperties)
+//@   loop 1 invariant forall i int {requestObject.Properties[i]} :: 0 <= i && i < len(requestObject.Properties) ==> requestObject.Properties[i] != nil
+//@   loop 1 invariant forall i int {pathProperties[i]} :: 0 <= i && i < len(pathProperties) ==> pathProperties[i] != nil && has(pathParameterNames, pathProperties[i].JSONName) && pathProperties[i].Required
+//@   loop 1 invariant forall i int {bodyProperties[i]} :: 0 <= i && i < len(bodyProperties) ==> bodyProperties[i] != nil && !has(pathParameterNames, bodyProperties[i].JSONName)
+//@   assert at return#1 partition: len(request.PathParameters) + len(bodyProperties) == len(requestObject.Properties)
+//@   assert at return#1 path: forall i int {request.PathParameters[i]} :: 0 <= i && i < len(request.PathParameters) ==> has(pathParameterNames, request.PathParameters[i].JSONName) && request.PathParameters[i].Required
+//@   assert at return#1 rest: forall i int {bodyProperties[i]} :: 0 <= i && i < len(bodyProperties) ==> !has(pathParameterNames, bodyProperties[i].JSONName)
+//@   assert at return#1 placed: mm.Request == request && (mm.HasBody ? request.Body != nil && len(request.Body.Properties) == len(bodyProperties) && len(request.QueryParameters) == 0 : request.Body == nil && len(request.QueryParameters) == len(bodyProperties))
+
+// buildListRequest collects search/filter/sort fields into a ListRequest it allocates; it reads the
+// response schema and writes nothing else (ASSUMED frame: read in list.go, it walks the schema with
+// closures that only append to the new message).
+//@ func buildListRequest
+//@   opt assumed frame
+//@   modifies fresh:result0
